@@ -20,13 +20,19 @@ ASSUMPTIONS = ["tasks are atomic (they only read files; independence is checked 
 
 
 def bounds(tier):
-    return {"tasks_per_call": 4, "deviation_bound": 1, "modes": ["lazy", "eager"],
+    return {"tasks_per_call": 4, "deviation_bound": 1 if tier == "quick" else 2, "modes": ["lazy", "eager"],
             "field_forms": ["name", "int", "slice from 1", "slice all", "list", "name list"]}
 
 
 def cases(tier, seed):
     out = []
-    for c in c01.cases(tier, seed):
+    src = c01.cases("quick", seed)
+    if tier == "thorough":
+        # the thorough tier of C01 is far too large to combine with schedule exploration: take its plotfiles with
+        # a deviating layout on the named meshes and tilings only
+        src = src + [c for c in c01.cases("thorough", seed) if c["desc"]["payload"] == "coded" and len(c["desc"]["fields"]) in (2, 4)
+                     and c.get("devlevel") is not None][::7]
+    for c in src:
         d = c["desc"]
         if d["payload"] != "coded" and tier == "quick":
             continue
@@ -35,7 +41,7 @@ def cases(tier, seed):
         lay = d["layout"]
         dev = c.get("devlevel")
         nfiles = max(len(l["files"]) if l else 1 for l in lay)
-        out.append({"desc": d, "devlevel": dev, "w": 1 + nfiles ** 3})
+        out.append({"desc": d, "devlevel": dev, "w": 1 + nfiles ** 3, "bound": 2 if (tier == "thorough" and nfiles <= 3) else 1})
     return out
 
 
@@ -92,7 +98,7 @@ def run_case(case, workdir):
                         it = iter(pck[S.decode(ftag)][lv])
                         return list(itertools.islice(it, nb + 3))
                     return ctl, call(go)
-            for plan, ctl, (st, val) in explorer.explore(run_iter, bound=1):
+            for plan, ctl, (st, val) in explorer.explore(run_iter, bound=case.get("bound", 1)):
                 ntasks = max([c["n"] for c in ctl.calls] or [0])
                 nontriv = ntasks > 1
                 rec.exe([dh, "iter", ftag, lv, explorer.plan_json(plan)], nontrivial=nontriv,
